@@ -93,6 +93,9 @@ func NewService(
 		DisableCompression:  DefaultDisableCompression,
 		TLSHandshakeTimeout: DefaultTLSHandshakeTimeout,
 		MaxIdleConnsPerHost: DefaultMaxIdleConnsPerHost,
+		// response_timeout bounds the wait for a backend's response head: a backend that accepts the
+		// request and then says nothing (or half a header) does not hold the request for ever
+		ResponseHeaderTimeout: configuration.GetResponseTimeout(),
 		DialContext: func(ctx context.Context, network, addr string) (net.Conn, error) {
 			dialer := &net.Dialer{
 				Timeout:   configuration.GetConnectionTimeout(),
